@@ -84,6 +84,8 @@ type findingsFile struct {
 	Findings []finding `json:"findings"`
 }
 
+const maxReported = 6
+
 var (
 	workerBin string
 	workDir   string
@@ -281,7 +283,7 @@ func raceKey(lines []string) string {
 func runReplay(path string, shrink bool, budget int) (res *replayFile, crashed bool, exit int, stderr string) {
 	out := filepath.Join(workDir, filepath.Base(path)+".out")
 	os.Remove(out)
-	args := []string{"-prop", propID, "-replay", path, "-out", out, "-watchdog", fmt.Sprint(wdSecs), "-budget", fmt.Sprint(budget)}
+	args := []string{"-prop", propID, "-replay", path, "-out", out, "-watchdog", fmt.Sprint(wdSecs), "-budget", fmt.Sprint(budget), "-known", filepath.Join(verifDir, "known_findings.json")}
 	if shrink {
 		args = append(args, "-shrink")
 	}
@@ -646,8 +648,15 @@ func main() {
 	for _, ck := range keys {
 		v := firstViol[ck]
 		if f, ok := known[ck]; ok {
-			knownHit[ck] = agg.ViolCount[ck]
+			knownHit[ck] += agg.ViolCount[ck]
 			_ = f
+			continue
+		}
+		if reported >= maxReported {
+			// every distinct (class, key) is counted in the evidence; only the
+			// first few are confirmed, minimised and given a replay file
+			fmt.Printf("violation class=%s key=%s occurrences=%d first_run=%d (not minimised: more than %d distinct violations)\n", v.Class, v.Key, agg.ViolCount[ck], v.Index, maxReported)
+			violations++
 			continue
 		}
 		rdir := filepath.Join(verifDir, "replays", propID)
